@@ -100,7 +100,8 @@ type rcOp struct {
 // the model (with the clock readings observed) and the Go results.
 func runHistory(t *testing.T, ops []rcOp, d time.Duration) (toks []string, results []string) {
 	synctest.Test(t, func(t *testing.T) {
-		c := service.NewCacheForVerif()
+		// the retention period set as GetReplayCache(d) sets it for the process-wide cache
+		c := service.NewCacheForVerifMaxAge(d)
 		t0 := time.Now()
 		stamps := []time.Time{t0.Add(-d), t0.Add(1234 * time.Microsecond), t0.Add(d)}
 		for _, op := range ops {
@@ -295,7 +296,7 @@ func c02Schedules(m *Model, v *Verdict, rng *RNG) {
 	for ci, cfg := range configs {
 		for _, seeded := range []bool{false, true} {
 			total := EnumerateSchedules(limit, func(choices []int) []int {
-				c := service.NewCacheForVerif()
+				c := service.NewCacheForVerifMaxAge(5 * time.Minute)
 				if seeded {
 					// an older entry of the same client exists (exercises the existing-client path, and
 					// lets a clean-up with a zero window delete it concurrently)
@@ -354,7 +355,7 @@ func c02Stress(v *Verdict, rng *RNG) {
 	if Thorough() {
 		rounds = 20000
 	}
-	c := service.NewCacheForVerif()
+	c := service.NewCacheForVerifMaxAge(5 * time.Minute)
 	now := time.Now()
 	for r := 0; r < rounds; r++ {
 		// a fresh client per round that already has one old entry; a clean-up that purges exactly that
